@@ -77,20 +77,26 @@ func (f *fAdapterTransport) Open() error {
 		}
 	}
 
-	go f.readLoop()
+	// Each read loop gets its own close signal. A loop that closes the
+	// transport itself (peer disconnect, read error) never consumes the signal
+	// its close() leaves behind; with a shared channel that stale signal made
+	// the next close after a reopen block forever while holding the lock.
+	closeSignal := make(chan struct{}, 1)
+	f.closeSignal = closeSignal
+	go f.readLoop(closeSignal)
 	f.isOpen = true
 	f.closeChan = make(chan error, 1)
 	return nil
 }
 
-func (f *fAdapterTransport) readLoop() {
+func (f *fAdapterTransport) readLoop(closeSignal <-chan struct{}) {
 	framedTransport := NewTFramedTransport(f.transport)
 	for {
 		frame, err := f.readFrame(framedTransport)
 		if err != nil {
 			// First check if the transport was closed.
 			select {
-			case <-f.closeSignal:
+			case <-closeSignal:
 				// Transport was closed.
 				return
 			default:
